@@ -122,15 +122,17 @@ class QuantifierSimplifier(Simplifier):
     def walk_exists(self, expression: "FNode", args: List["FNode"]) -> "FNode":
         assert self._problem is not None
         assert len(args) == 1
-        if args[0].is_bool_constant():
-            if args[0].bool_constant_value():
-                return self.manager.TRUE()
-            return self.manager.FALSE()
         vars = expression.variables()
         type_list = [v.type for v in vars]
         possible_objects: List[List["up.model.object.Object"]] = [
             list(self._problem.objects(t)) for t in type_list
         ]
+        # A constant body decides the quantifier only if every variable has at
+        # least one object to range over; otherwise the loop below is empty.
+        if args[0].is_bool_constant() and all(possible_objects):
+            if args[0].bool_constant_value():
+                return self.manager.TRUE()
+            return self.manager.FALSE()
         # product of n iterables returns a generator of tuples where
         # every tuple has n elements and the tuples make every possible
         # combination of 1 item for each iterable. For example:
@@ -147,15 +149,17 @@ class QuantifierSimplifier(Simplifier):
     def walk_forall(self, expression: "FNode", args: List["FNode"]) -> "FNode":
         assert self._problem is not None
         assert len(args) == 1
-        if args[0].is_bool_constant():
-            if args[0].bool_constant_value():
-                return self.manager.TRUE()
-            return self.manager.FALSE()
         vars = expression.variables()
         type_list = [v.type for v in vars]
         possible_objects: List[List["up.model.object.Object"]] = [
             list(self._problem.objects(t)) for t in type_list
         ]
+        # A constant body decides the quantifier only if every variable has at
+        # least one object to range over; otherwise the loop below is empty.
+        if args[0].is_bool_constant() and all(possible_objects):
+            if args[0].bool_constant_value():
+                return self.manager.TRUE()
+            return self.manager.FALSE()
         # product of n iterables returns a generator of tuples where
         # every tuple has n elements and the tuples make every possible
         # combination of 1 item for each iterable. For example:
